@@ -372,3 +372,49 @@ class Gen:
             out.append(t); pos += len(t.encode())
         out.append("\n")
         return "".join(out), spans
+
+
+# ----------------------------------------------------------------------------- qualifier orders
+def _perms(quals, kmax):
+    import itertools
+    out = []
+    for k in range(1, kmax + 1):
+        for sub in itertools.permutations(quals, k):
+            out.append(" ".join(sub))
+    return out
+
+
+def qualifier_orders(r=None, n=None):
+    """Declarations whose leading qualifiers come in EVERY order (most are not SystemVerilog and are rejected): whatever the
+    parser accepts must still be a tree whose leaves stand in source order.  -> [("sv", source)]"""
+    out = []
+    for q in _perms(["const", "var", "static", "automatic"], 3):
+        for ctxt in ("module m; %s endmodule\n", "module m; initial begin %s end endmodule\n", "package p; %s endpackage\n",
+                     "module m; function void f(); %s endfunction endmodule\n", "class c; %s endclass\n", "%s\n"):
+            out.append(ctxt % ("%s int a = 1;" % q))
+    for q in _perms(["static", "protected", "local", "rand", "randc", "const", "var"], 3):
+        out.append("class c; %s int a; endclass\n" % q)
+    for q in _perms(["extern", "pure", "virtual", "static", "protected", "local"], 3):
+        out.append("class c; %s function void f(); endclass\n" % q)
+        out.append("class c; %s function void f(); endfunction endclass\n" % q)
+        out.append("virtual class c; %s task t(); endclass\n" % q)
+    for q in _perms(["input", "output", "ref", "var", "wire", "logic", "signed", "[3:0]"], 3):
+        out.append("module m(%s a); endmodule\n" % q)
+    for q in _perms(["wire", "vectored", "scalared", "signed", "(strong0, strong1)", "#1", "[3:0]"], 3):
+        out.append("module m; %s w; endmodule\n" % q)
+    for q in _perms(["parameter", "localparam", "type", "int", "signed", "[3:0]"], 3):
+        out.append("module m #(%s P = 1) (); %s Q = 2; endmodule\n" % (q, q))
+    for q in _perms(['"DPI-C"', "pure", "context", "function", "task", "int"], 3):
+        out.append("module m; import %s f(); export %s f; endmodule\n" % (q, q))
+    for q in _perms(["typedef", "enum", "struct", "union", "packed", "tagged", "signed"], 3):
+        out.append("module m; %s { int a; } t; endmodule\n" % q)
+        out.append("module m; %s { A, B } t; endmodule\n" % q)
+    for q in _perms(["unique", "unique0", "priority", "case", "casez", "if"], 2):
+        out.append("module m; initial %s (a) 1: x = 1; endcase endmodule\n" % q)
+        out.append("module m; initial %s (a) x = 1; else x = 2; endmodule\n" % q)
+    for q in _perms(["always", "always_ff", "@(posedge c)", "@*", "#1"], 2):
+        out.append("module m; %s x <= 1; endmodule\n" % q)
+    out = [("sv", s) for s in out]
+    if n is not None and r is not None and n < len(out):
+        out = r.sample(out, n)
+    return out
